@@ -111,6 +111,9 @@ def main(tier, replay=None):
                 continue
             _, _, stage, wid, counters, addrs, sc, idh = x[:8]
             nstages += 1
+            if sc.startswith("import-accepted-the-passphrase-followed"):
+                viol("passphrase-trailing-nul-equivalent", "case %d: ImportWallet accepted the passphrase followed by a zero byte" % k)
+                continue
             if sc.startswith("import-failed"):
                 viol("import-mnemonic-failed", "case %d: %s: %s" % (k, stage, sc))
                 continue
